@@ -30,7 +30,8 @@ func xs(x uint64) uint64 {
 }
 
 var ranges_ = []string{"1-10", "1-100x5", "10-1", "1-20y3", "1-12:3", "5,3,1", "-10--2x2", "1-5,7-9#", "bad", "1-5x0"}
-var seqs_ = []string{"/a/b/foo.1-10#.exr", "/a/foo.0001.exr", "bar.1-5,8@@.tar.gz", "/x/y.%04d.e", "q.$F3.e", "u.<UDIM>.tif", "plain.txt", "/a/b/"}
+var seqs_ = []string{"/a/b/foo.1-10#.exr", "/a/foo.0001.exr", "bar.1-5,8@@.tar.gz", "/x/y.%04d.e", "q.$F3.e", "u.<UDIM>.tif", "plain.txt", "/a/b/",
+	"/w/v.1-3%020d.e", "/w/v.1-5,8%040d.e", "w.5-7$F33.e", "/w/z.2-9x3%0100d.e"}
 var lists_ = [][]string{{"/d/a.0001.exr", "/d/a.0002.exr", "/d/a.0004.exr", "/d/readme.txt"}, {"x.1.e", "x.2.e", "x.03.e", ".h.1.e"}}
 
 func do(c call, dir string) string {
@@ -40,7 +41,7 @@ func do(c call, dir string) string {
 		if err != nil {
 			return "ERR"
 		}
-		return fmt.Sprint(fs.Len(), fs.Frames(), fs.Normalize().FrameRange(), fs.InvertedFrameRange(c.n%5))
+		return fmt.Sprint(fs.Len(), fs.Frames(), fs.Normalize().FrameRange(), fs.InvertedFrameRange(c.n%5), fs.FrameRangePadded((c.n%7)*11))
 	case 1:
 		st := fileseq.PadStyle(c.n % 2)
 		if c.n%7 == 0 {
@@ -56,7 +57,8 @@ func do(c call, dir string) string {
 			c2.SetPaddingStyle(fileseq.PadStyle(50 + c.n))
 		}
 		c2.SetPaddingStyle(fileseq.PadStyle((c.n + 1) % 2))
-		return fmt.Sprint(q.String(), q.ZFill(), q.Index(0), f, len(q.Split()), c2.String())
+		fr3, _ := q.Frame("3")
+		return fmt.Sprint(q.String(), q.ZFill(), q.Index(0), f, len(q.Split()), c2.String(), q.FrameRangePadded(), q.InvertedFrameRangePadded(), fr3)
 	case 2:
 		l := lists_[c.n%len(lists_)]
 		qs, err := fileseq.FindSequencesInList(l, fileseq.SingleFiles, fileseq.FileOption(2+c.n%2))
@@ -81,7 +83,7 @@ func do(c call, dir string) string {
 		sortStrings(out)
 		return strings.Join(out, "|")
 	case 4:
-		return fileseq.FramesToFrameRange([]int{1, 2, 3, 10, 8, 6, c.n}, c.n%2 == 0, c.n%4) + fileseq.PadFrameRange(c.a, 4) + fileseq.PaddingChars(c.n%9)
+		return fileseq.FramesToFrameRange([]int{1, 2, 3, 10, 8, 6, c.n}, c.n%2 == 0, c.n%4) + fileseq.PadFrameRange(c.a, 4+(c.n%6)*9) + fileseq.PaddingChars(c.n%9)
 	default:
 		q, err := fileseq.FindSequenceOnDisk(dir+"/seqA.#.exr", fileseq.StrictPadding)
 		if err != nil || q == nil {
